@@ -18,7 +18,7 @@ class EvMonWorld(World):
     stub_components = ("event source lines, enable and clear masks (seeded agent)",)
     fault_kinds = ("clear_and_trigger_same_cycle", "one_cycle_pulse", "edges_in_consecutive_cycles",
                    "clear_of_non_pending", "repeated_add", "foreign_object", "add_after_freeze",
-                   "second_instance_in_process")
+                   "second_instance_in_process", "source_also_in_another_event_map")
     assumptions = (
         "Amaranth's Python RTL simulator executes the elaborated netlist faithfully",
         "'pending becomes set the cycle after its source triggers' is read as a registered update "
@@ -50,6 +50,13 @@ class EvMonWorld(World):
                 ops.append({"k": "index", "s": rng.below(n)})
             if rng.chance(0.08):
                 ops.append({"k": "addbad"})
+        if rng.chance(0.2) and n:
+            # the same source objects are also members of another event map (other order)
+            other = list(range(n))
+            rng.shuffle(other)
+            at = rng.below(len(ops) + 1)
+            for j in other[:rng.range(1, n)]:
+                ops.insert(min(at, len(ops)), {"k": "add_other", "s": j})
         if rng.chance(0.2):
             ops.append({"k": "freeze"})
             if n:
@@ -72,6 +79,7 @@ class EvMonWorld(World):
         n_cfg = len(config["srcs"])
         srcs = [event.Source(trigger=tr, path=(f"s{i}",)) for i, tr in enumerate(config["srcs"])]
         em = event.EventMap()
+        other_map = event.EventMap()
         order = []           # model: sources in order of first addition
         frozen = False
         extra = []
@@ -140,6 +148,9 @@ class EvMonWorld(World):
             elif k == "freeze":
                 em.freeze()
                 frozen = True
+            elif k == "add_other" and srcs:
+                other_map.add(srcs[int(op.get("s", 0)) % len(srcs)])
+                stats.fault("source_also_in_another_event_map")
             check_map(step)
             hist.rec("map", k, len(order))
 
